@@ -117,7 +117,10 @@ def synth_class():
             return b
 
         def map_options(self):
-            return {"mode": self.inst.get("map_mode", "unroll")}
+            mode = self.inst.get("map_mode", "unroll")
+            if mode == "thread":
+                return {"mode": "thread", "n_threads": 2}
+            return {"mode": mode}
 
     _CLASSES["synth"] = Synth
     return Synth
@@ -260,6 +263,20 @@ def problem_class(mode, extra_bases=()):
         def path_goals(self):
             return [g for g in self._all_goals() if g.spec["path"]] + super().path_goals()
 
+        def _minabs(self, path):
+            from rtctools.optimization.min_abs_goal_programming_mixin import MinAbsGoal
+
+            if getattr(self, "_minabs_objs", None) is None:
+                ts = self.inst["times"]
+                self._minabs_objs = [make_goal(s, ts, base=MinAbsGoal) for s in self.inst.get("minabs", [])]
+            return [g for g in self._minabs_objs if g.spec["path"] == path]
+
+        def min_abs_goals(self):
+            return self._minabs(False)
+
+        def min_abs_path_goals(self):
+            return self._minabs(True)
+
         def goal_programming_options(self):
             o = super().goal_programming_options()
             for k, v in self.inst.get("opts", {}).items():
@@ -298,8 +315,12 @@ def problem_class(mode, extra_bases=()):
             if self.capture:
                 self.cap.append(capture(self, priority))
             else:
+                tp = self.transcribed_problem
+                lbg = np.array(ca.veccat(*tp["lbg"]), dtype=float).ravel() if len(tp["lbg"]) else np.zeros(0)
+                ubg = np.array(ca.veccat(*tp["ubg"]), dtype=float).ravel() if len(tp["ubg"]) else np.zeros(0)
                 self.cap.append({"priority": priority, "obj": float(self.objective_value),
-                                 "results": results_of(self)})
+                                 "results": results_of(self), "M": len(lbg),
+                                 "lbg_tail": lbg[-6:].tolist(), "ubg_tail": ubg[-6:].tolist()})
 
     if mode in ("default", "keep"):
         bases = (Hooks,) + tuple(extra_bases) + (GPM, Synth)
@@ -512,6 +533,11 @@ def run_instance(inst, mode=None, capture_full=True, extra_bases=(), twice=False
 
         if LinearizedOrderGoalProgrammingMixin not in extra_bases:
             extra_bases = tuple(extra_bases) + (LinearizedOrderGoalProgrammingMixin,)
+    if inst.get("minabs"):
+        from rtctools.optimization.min_abs_goal_programming_mixin import MinAbsGoalProgrammingMixin
+
+        if MinAbsGoalProgrammingMixin not in extra_bases:
+            extra_bases = (MinAbsGoalProgrammingMixin,) + tuple(extra_bases)
     cls = problem_class(mode, extra_bases)
     pr = cls(inst=inst)
     pr.capture = capture_full
